@@ -183,9 +183,18 @@ def lean_str(s: str) -> str:
     return '"' + s.replace("\\", "\\\\").replace('"', '\\"') + '"'
 
 
+_CACHE: dict = {}
+
+
 def tables() -> dict:
     import openpectus
     root = Path(openpectus.__file__).resolve().parent
+    if root not in _CACHE:
+        _CACHE[root] = _tables(root)
+    return _CACHE[root]
+
+
+def _tables(root: Path) -> dict:
     eng = ast.parse((root / "engine/engine.py").read_text())
     interp = ast.parse((root / "lang/exec/pinterpreter.py").read_text())
     events = ast.parse((root / "lang/exec/events.py").read_text())
